@@ -10,7 +10,7 @@
    decimal constant to a float type, strconv.Quote) are universally quantified, with the hypotheses
    below; the harness tests them on every case. *)
 Require Import Gengo.Base.Bytes Gengo.Model.ValueLit Gengo.Model.ValueLitSpec Gengo.Model.ValueLitInst
-               Gengo.Proofs.ValueLit.
+               Gengo.Proofs.ValueLit Gengo.Proofs.ValueLitWitness.
 From Coq Require Import ZArith Permutation.
 
 Section Statements.
@@ -107,7 +107,9 @@ Print Assumptions C10_type_prefix.
 Print Assumptions C10_closure_prefix.
 Print Assumptions C10_roundtrip_refuted_before_fix.
 
-(* non-vacuity 1: the hypotheses are satisfiable (integers below 2^53 as "floats", printed in decimal) *)
+(* non-vacuity 1: the hypotheses are satisfiable.  This is the MINIMAL instance (integers below 2^53 as
+   "floats", printed in decimal, quote = identity): its [fbig] is constantly false, so the last clause of
+   [strconv_hyps] holds vacuously in it.  The instances below it do not have that defect. *)
 Theorem C10_hypotheses_satisfiable :
   @strconv_hyps Z (fun x => Z.eqb x 0) (fun _ => dec) (fun _ => dec) (fun _ => false)
                 (fun _ => parse_int) 0%Z z_frep eq /\
@@ -118,6 +120,61 @@ Proof.
 Qed.
 Print Assumptions C10_hypotheses_satisfiable.
 
+(* non-vacuity 1b: decimal floats (m, e) = m * 10^e (Proofs/ValueLitWitness.v).  [d_fbig x] is |x| >= 1e21;
+   the 'f' format writes all the digits, the 'g' format is scientific ("15e+20") exactly when the value is big,
+   and the constant conversion [d_fparse] reads INT and INT "e+" INT.  The quote function escapes backslash,
+   double quote and newline.  The concrete facts: a big value, one that is not, a big float32, zero with an
+   exponent, and three values [d_frep] rejects. *)
+Theorem C10_hypotheses_satisfiable_decimal_floats :
+  @strconv_hyps df d_fzero d_ffmt d_gfmt d_fbig d_fparse d_f0 d_frep d_feq /\
+  (forall a b, esc_quote a = esc_quote b -> a = b) /\
+  (d_frep KF64 (15%Z, 20) /\ d_fbig (15%Z, 20) = true /\ d_gfmt KF64 (15%Z, 20) = bs "15e+20" /\
+   d_ffmt KF64 (15%Z, 20) = bs "1500000000000000000000" /\
+   parse_int (bs "15e+20") = None /\ d_fparse KF64 (bs "15e+20") = Some (15%Z, 20)) /\
+  (d_frep KF64 (42%Z, 1) /\ d_fbig (42%Z, 1) = false /\ d_gfmt KF64 (42%Z, 1) = bs "420" /\
+   d_ffmt KF64 (42%Z, 1) = bs "420" /\ d_fparse KF64 (bs "420") = Some (420%Z, 0)) /\
+  (d_frep KF32 ((-1)%Z, 30) /\ d_fbig ((-1)%Z, 30) = true /\ d_gfmt KF32 ((-1)%Z, 30) = bs "-1e+30") /\
+  (d_frep KF64 (0%Z, 5) /\ d_fzero (0%Z, 5) = true /\ d_fzero (42%Z, 1) = false) /\
+  (d_frepb KF32 (1%Z, 39) = false /\ d_frepb KF64 ((2 ^ 53)%Z, 0) = false /\ d_frepb KF64 (2%Z, 308) = false).
+Proof. exact (conj d_instance (conj esc_quote_inj d_facts)). Qed.
+Print Assumptions C10_hypotheses_satisfiable_decimal_floats.
+
+Example C10_esc_quote_example :
+  esc_quote ["a"%char; dq; bsl; nl] = ["""" ; "a"; "\"; """"; "\"; "\"; "\"; "n"; """"]%char.
+Proof. vm_compute. reflexivity. Qed.
+
+(* non-vacuity 1c: the harness's own float record [fl] (the texts strconv produced) with a finite table of real
+   strconv data ([fl_tab64], [fl_tab32]: 1.5, 1e21, -3.5e22, 0, -0, 100, 2.5e-7, 123456789, 9.99999999999999e20,
+   MaxFloat64; MaxFloat32, float32(0.1) ...), [fl_frep k x] = x is a row of the table of that bit size,
+   [fl_feq] = [i_feqb], [fl_ptab] = ParseFloat of every text of the tables. *)
+Theorem C10_hypotheses_satisfiable_strconv_table :
+  @strconv_hyps fl i_fzero i_ffmt i_gfmt i_fbig (i_fparse fl_ptab) i_f0 fl_frep fl_feq /\
+  fl_frep KF64 (fl_mk "1e+21" "1000000000000000000000" "1e+21" true) /\
+  fl_frep KF32 (fl_mk "3.4028235e+38" "340282350000000000000000000000000000000" "3.4028235e+38" true) /\
+  parse_int (bs "1000000000000000000000") = Some (10 ^ 21)%Z /\ parse_int (bs "1e+21") = None /\
+  fl_feq (fl_mk "-0" "-0" "-0" false) i_f0 /\
+  i_fparse fl_ptab KF64 (bs "0.00000025") = Some (mk_fl (bs "2.5e-07") [] [] false) /\
+  i_fparse fl_ptab KF32 max_float64_f = None.
+Proof. exact (conj fl_instance fl_facts). Qed.
+Print Assumptions C10_hypotheses_satisfiable_strconv_table.
+
+(* ... and the main theorem on all the rows of the 64-bit table as a []float64, with the text *)
+Example C10_strconv_table_roundtrip :
+  forall local,
+  exists l v', value_lit i_fzero i_ffmt i_gfmt i_fbig esc_quote local true false (TSlice (TFloat KF64)) fl_slice = Ok l /\
+               denote (i_fparse fl_ptab) i_f0 (TSlice (TFloat KF64)) l = Some v' /\ deep_eq fl_feq fl_slice v'.
+Proof. exact fl_slice_roundtrip. Qed.
+Print Assumptions C10_strconv_table_roundtrip.
+
+Example C10_strconv_table_text :
+  option_map (print_lit esc_quote wit_local)
+    (match value_lit i_fzero i_ffmt i_gfmt i_fbig esc_quote wit_local true false (TSlice (TFloat KF64)) fl_slice with
+     | Ok l => Some l | _ => None end)
+  = Some (concat (map (fun s => bs s ++ [nl])
+            ["[]float64{"; "1.5,"; "1e+21,"; "-3.5e+22,"; "0,"; "-0,"; "100,"; "0.00000025,"; "123456789,";
+             "999999999999999000000,"; "1.7976931348623157e+308,"]%string) ++ bs "}").
+Proof. exact fl_slice_text. Qed.
+
 (* non-vacuity 2: a concrete nested value, its literal under the repaired code, and the round trip *)
 Definition ex_S : gotype :=
   TNamed (bs "m") (bs "S")
@@ -127,6 +184,32 @@ Definition ex_v : goval fl :=
   VStruct [VPtr (VStruct [VInt 0]);
            VMap false [(VStr (bs "b"), VStruct [VInt 0]); (VStr (bs "a"), VStruct [VInt 7])];
            VPtr (VStr (bs "x")); VPtr (VInt 3); VSlice false [VInt 97; VInt 39]].
+
+(* the example is in the domain and well typed, whatever the float carrier is *)
+Example C10_example_dom : dom ex_S.
+Proof. exact wit_S_dom. Qed.
+Example C10_example_typed : forall frep, @typed fl frep ex_S ex_v.
+Proof. exact (wit_v_typed fl). Qed.
+
+(* the main theorem instantiated: the decimal floats and the escaping quote of non-vacuity 1b, this type and
+   this value (over [df]: [wit_S] = [ex_S], [wit_v df] = the term of [ex_v]), every import tracker *)
+Example C10_example_roundtrip_instantiated :
+  forall local,
+  exists l v', value_lit d_fzero d_ffmt d_gfmt d_fbig esc_quote local true false ex_S (wit_v df) = Ok l /\
+               denote d_fparse d_f0 ex_S l = Some v' /\ deep_eq d_feq (wit_v df) v'.
+Proof. exact wit_v_roundtrip. Qed.
+Print Assumptions C10_example_roundtrip_instantiated.
+
+(* ... and on [ex_v] itself, with the harness's float record and the table of real strconv data of non-vacuity 1c *)
+Example C10_example_roundtrip_on_ex_v :
+  forall local,
+  exists l v', value_lit i_fzero i_ffmt i_gfmt i_fbig esc_quote local true false ex_S ex_v = Ok l /\
+               denote (i_fparse fl_ptab) i_f0 ex_S l = Some v' /\ deep_eq fl_feq ex_v v'.
+Proof.
+  exact (fun local => C10_roundtrip i_fzero i_ffmt i_gfmt i_fbig (i_fparse fl_ptab) i_f0 esc_quote local fl_frep fl_feq
+                        fl_instance esc_quote_inj ex_S ex_v wit_S_dom (wit_v_typed fl fl_frep)).
+Qed.
+
 Definition ex_q := [(bs "a", bs """a"""); (bs "b", bs """b"""); (bs "x", bs """x""")].
 
 Definition ex_l : list (bytes * bytes) := [(bs "m", [])].   (* "m" is the package being generated *)
@@ -154,6 +237,59 @@ Example C10_example_before_fix :
   | _ => None
   end = None.
 Proof. vm_compute. reflexivity. Qed.
+
+(* non-vacuity 3: a nested value WITH floats ([wit_T], [wit_fv] in Proofs/ValueLitWitness.v): a named struct
+   m.Rec { Rows []map[string]float64; C *Color; K Color; X float32; P, Q *string; Z0 float64; In In; A [2]float64 }
+   holding 1.5e21 (big), 420, 0 (in a map), an empty and a nil map, a non-nil *Color, a big float32, a *string
+   whose text needs all three escapes, a nil pointer, a zero float and a zero struct (omitted), 1e21 and -2.5e20. *)
+Example C10_float_example_dom : dom wit_T.
+Proof. exact wit_T_dom. Qed.
+Example C10_float_example_typed : typed d_frep wit_T wit_fv.
+Proof. exact wit_fv_typed. Qed.
+
+Example C10_float_example_roundtrip :
+  forall local,
+  exists l v', value_lit d_fzero d_ffmt d_gfmt d_fbig esc_quote local true false wit_T wit_fv = Ok l /\
+               denote d_fparse d_f0 wit_T l = Some v' /\ deep_eq d_feq wit_fv v'.
+Proof. exact wit_fv_roundtrip. Qed.
+Print Assumptions C10_float_example_roundtrip.
+
+(* its text, computed ([wit_local]: "m" is the package being generated): big floats in scientific form, the
+   others with all their digits, escaped strings *)
+Example C10_float_example_text :
+  option_map (print_lit esc_quote wit_local)
+    (match value_lit d_fzero d_ffmt d_gfmt d_fbig esc_quote wit_local true false wit_T wit_fv with
+     | Ok l => Some l | _ => None end)
+  = Some (concat (map (fun s => bs s ++ [nl])
+    ["Rec{";
+     "Rows:[]map[string]float64{";
+     "map[string]float64{";
+     """big"":15e+20,";
+     """k\""\\"":420,";
+     """zero"":0,";
+     "},";
+     "map[string]float64{},";
+     "map[string]float64{},";
+     "},";
+     "C:func(v Color) *Color { return &v }(3),";
+     "K:-7,";
+     "X:-1e+30,";
+     "P:func(v string) *string { return &v }(""say \""hi\""\\\n""),";
+     "A:[2]float64{";
+     "1e+21,";
+     "-250000000000000000000,";
+     "},"]%string) ++ bs "}").
+Proof. exact wit_fv_text. Qed.
+
+(* ... and what that literal denotes, computed: 420 comes back as (420, 0), the nil map as an empty one, the
+   omitted fields as zero values — a different term, deeply equal *)
+Example C10_float_example_denote :
+  match value_lit d_fzero d_ffmt d_gfmt d_fbig esc_quote wit_local true false wit_T wit_fv with
+  | Ok l => denote d_fparse d_f0 wit_T l
+  | _ => None
+  end = Some wit_fv'
+  /\ deep_eq d_feq wit_fv wit_fv' /\ wit_fv <> wit_fv'.
+Proof. exact (conj wit_fv_denote wit_fv_deep_eq). Qed.
 
 (* ------------------------------------------------------------------------------------------------------------ *)
 (* RenderStack: which imports a value literal registers.
